@@ -388,7 +388,7 @@ converter.register_unstructure_hook({class_name}, _unstructure_{class_name.lower
                     return f"{ps.name}.{enum_member_name}"
 
             if isinstance(ps.default, str):
-                escaped_inner_content = json.dumps(ps.default)[1:-1]
+                escaped_inner_content = json.dumps(ps.default, ensure_ascii=False)[1:-1]
                 return '"' + escaped_inner_content + '"'
             elif isinstance(ps.default, bool):
                 return str(ps.default)
